@@ -88,7 +88,7 @@ pub fn incremental(i: Iface, p: &Params, msg: &[u8], cuts: &[usize]) -> Result<V
                 for pc in &pieces {
                     crypto_generichash_update(&mut st, pc);
                 }
-                let mut o = vec![0u8; outlen];
+                let mut o = vec![0xC3u8; outlen];
                 crypto_generichash_final(st, &mut o).unwrap();
                 o
             }
@@ -105,7 +105,7 @@ pub fn incremental(i: Iface, p: &Params, msg: &[u8], cuts: &[usize]) -> Result<V
                 for pc in &pieces {
                     crypto_auth_update(&mut st, pc);
                 }
-                let mut o = [0u8; 32];
+                let mut o = [0xC3u8; 32];
                 crypto_auth_final(st, &mut o);
                 o.to_vec()
             }
@@ -121,7 +121,7 @@ pub fn incremental(i: Iface, p: &Params, msg: &[u8], cuts: &[usize]) -> Result<V
                 for pc in &pieces {
                     crypto_onetimeauth_update(&mut st, pc);
                 }
-                let mut o = [0u8; 16];
+                let mut o = [0xC3u8; 16];
                 crypto_onetimeauth_final(st, &mut o);
                 o.to_vec()
             }
@@ -137,7 +137,7 @@ pub fn incremental(i: Iface, p: &Params, msg: &[u8], cuts: &[usize]) -> Result<V
                 for pc in &pieces {
                     crypto_hash_sha512_update(&mut st, pc);
                 }
-                let mut o = [0u8; 64];
+                let mut o = [0xC3u8; 64];
                 crypto_hash_sha512_final(st, &mut o);
                 o.to_vec()
             }
@@ -153,7 +153,7 @@ pub fn incremental(i: Iface, p: &Params, msg: &[u8], cuts: &[usize]) -> Result<V
                 for pc in &pieces {
                     crypto_sign_update(&mut st, pc);
                 }
-                let mut sig = [0u8; 64];
+                let mut sig = [0xC3u8; 64];
                 crypto_sign_final_create(st, &mut sig, &p.sign_sk).unwrap();
                 let mut st = crypto_sign_init();
                 for pc in &pieces {
@@ -188,28 +188,28 @@ pub fn oneshot(i: Iface, p: &Params, msg: &[u8]) -> (Vec<u8>, Vec<u8>) {
     match i {
         Iface::GhClassic { outlen, keyed } => {
             let k = if keyed { Some(&p.key32[..]) } else { None };
-            let mut o = vec![0u8; outlen];
+            let mut o = vec![0xC3u8; outlen];
             crypto_generichash(&mut o, msg, k).unwrap();
             (o, sodium::generichash(outlen, msg, k))
         }
         Iface::GhObject { keyed } => {
             let k = if keyed { Some(&p.key32[..]) } else { None };
-            let mut o = vec![0u8; 64];
+            let mut o = vec![0xC3u8; 64];
             crypto_generichash(&mut o, msg, k).unwrap();
             (o, sodium::generichash(64, msg, k))
         }
         Iface::AuthClassic | Iface::AuthObject => {
-            let mut o = [0u8; 32];
+            let mut o = [0xC3u8; 32];
             crypto_auth(&mut o, msg, &p.key32);
             (o.to_vec(), sodium::auth(msg, &p.key32).to_vec())
         }
         Iface::OtaClassic | Iface::OtaObject => {
-            let mut o = [0u8; 16];
+            let mut o = [0xC3u8; 16];
             crypto_onetimeauth(&mut o, msg, &p.key32);
             (o.to_vec(), sodium::onetimeauth(msg, &p.key32).to_vec())
         }
         Iface::ShaClassic | Iface::ShaObject => {
-            let mut o = [0u8; 64];
+            let mut o = [0xC3u8; 64];
             crypto_hash_sha512(&mut o, msg);
             (o.to_vec(), sodium::sha512(msg).to_vec())
         }
@@ -218,7 +218,7 @@ pub fn oneshot(i: Iface, p: &Params, msg: &[u8]) -> (Vec<u8>, Vec<u8>) {
             // its own init/update/final on the whole message
             let mut st = crypto_sign_init();
             crypto_sign_update(&mut st, msg);
-            let mut sig = [0u8; 64];
+            let mut sig = [0xC3u8; 64];
             crypto_sign_final_create(st, &mut sig, &p.sign_sk).unwrap();
             let mut a = sig.to_vec();
             a.push(1);
@@ -306,7 +306,7 @@ pub fn run() -> i32 {
     let (sn2, sn3) = (tier.pick(200usize, 300), tier.pick(40usize, 64));
     let depth = tier.pick(5usize, 6);
     let alphabet: [usize; 14] = [0, 1, 15, 16, 17, 63, 64, 65, 127, 128, 129, 255, 256, 257];
-    ctx.rule = format!("history-replay exploration of the pending-buffer automaton of each incremental interface ({} hash/MAC interfaces + 2 signing interfaces), one fresh real object per history: (a) ALL partitions of every message length n into <=3 consecutive pieces, empty pieces included (2-way n<={}, 3-way n<={}, 4-way n<={}; signing: 2-way n<={}, 3-way n<={}); (b) ALL update sequences over the piece alphabet {:?} up to depth {} (signing depth 3); (c) ALL sequences of 3 updates over the large-piece alphabet {{0,1,127,128,129,4096,8191,8192,8193,16385}}; oracle: result == dryoc one-shot == libsodium one-shot on the concatenation (signing: signature bytes and the incremental verifier accepts); states = distinct (interface, pending-buffer fill, absorbed-blocks class) reached, transitions = update calls", IFACES.len() - 1, n2, n3, n4, sn2, sn3, alphabet, depth);
+    ctx.rule = format!("history-replay exploration of the pending-buffer automaton of each incremental interface ({} hash/MAC interfaces + 2 signing interfaces), one fresh real object per history: (a) ALL partitions of every message length n into <=3 consecutive pieces, empty pieces included (2-way n<={}, 3-way n<={}, 4-way n<={}; signing: 2-way n<={}, 3-way n<={}); (b) ALL update sequences over the piece alphabet {:?} up to depth {} (signing depth 3); (c) ALL sequences of 3 updates over the large-piece alphabet {{0,1,127,128,129,4096,8191,8192,8193,16385}} and ALL ordered pairs over {{0,1,65535,65536,65537,100000,131072,131073,262145}}; oracle: result == dryoc one-shot == libsodium one-shot on the concatenation (signing: signature bytes and the incremental verifier accepts); states = distinct (interface, pending-buffer fill, absorbed-blocks class) reached, transitions = update calls", IFACES.len() - 1, n2, n3, n4, sn2, sn3, alphabet, depth);
     ctx.assume("message bytes are a fixed counting pattern: the automaton under test is driven by lengths, not values");
     let p = Params::new(seed);
     let tracker = std::sync::Mutex::new(Tracker { states: HashSet::new(), transitions: 0 });
@@ -437,6 +437,31 @@ pub fn run() -> i32 {
         g.states.extend(tr.states);
     });
     ctx.absorb("large-piece-sequences", st);
+    // very large single updates (slab / chunked fast paths engage above 64 KiB): all ordered
+    // pairs over {0, 1, 65535, 65536, 65537, 100000, 131072, 131073, 262145}
+    let huge: [usize; 9] = [0, 1, 65535, 65536, 65537, 100000, 131072, 131073, 262145];
+    let mut units: Vec<(Iface, usize)> = vec![];
+    for &i in &all {
+        for a in 0..huge.len() {
+            units.push((i, a));
+        }
+    }
+    let st = par_units(&units, |&(i, a), st| {
+        let mut tr = Tracker { states: HashSet::new(), transitions: 0 };
+        for b in 0..huge.len() {
+            let n = huge[a] + huge[b];
+            let cuts = [huge[a]];
+            let msg = message(seed, n);
+            let one = oneshot(i, &p, &msg);
+            judge(st, i, &p, &msg, &cuts, &one, "very-large-piece pair");
+            tr.walk(i, n, &cuts);
+        }
+        st.distinct = st.evaluations;
+        let mut g = tracker.lock().unwrap();
+        g.transitions += tr.transitions;
+        g.states.extend(tr.states);
+    });
+    ctx.absorb("very-large-pieces", st);
     let g = tracker.lock().unwrap();
     ctx.total.states = g.states.len() as u64;
     ctx.total.transitions = g.transitions;
